@@ -114,4 +114,81 @@ CHECKS = {
         "level_note": "trusted: the f64 reference distance and the sequential model; absence of old (drained) documents is recall, not judged here",
         "technique": "runtime monitoring: per-result oracle against reference model and brute-force distances, forced kernels",
     },
+    "C07": {
+        "level": "exploration",
+        "rule": "two legs. cache-model: reference-model monitor on QueryHashCache itself: seeded histories of get_scoped / (conditional and "
+                "unconditional) stores with interleaved invalidations / invalidate_doc / invalidate_for_insert / clear over dims "
+                "{1,8,31,32,33,64,130} x 3 metrics x thresholds {1.0,0.9,0.52} x capacities {1,2,4,64}, 2 scopes, near-duplicate and "
+                "large-magnitude queries, written vectors placed just inside/outside a live entry's distance boundary (tail-heavy to stress "
+                "the prefix pruning bound); every hit must be explained by a live, same-scope, large-enough-k reference entry whose query is "
+                "bit-equal, quantisation-equal or above the similarity threshold. engine: TieredEngine histories over a fixed query pool in "
+                "2 scopes (single and batch search, inserts, bulk loads, overwrites, deletes, metadata updates, drains); every CacheHit is "
+                "judged as a fresh search now (live docs, current distances) and must contain every document written since the last store of "
+                "that query that lies strictly inside the k-th distance. distinct_nontrivial = distinct histories with >= 1 judged hit (and "
+                ">= 1 required invalidation in the cache-model leg)",
+        "legs": [
+            {"name": "cache-model", "argv": ["c07"], "args": {"leg": "cache-model"}, "shards": 16},
+            {"name": "engine", "argv": ["c07"], "args": {"leg": "engine"}, "shards": 16},
+        ],
+        "assumptions": COMMON_ASSUME + ["similarity (semantic) hits above the configured threshold are by design (DESIGN 7); over-invalidation is allowed",
+                                         "the searcher-vs-writer schedule leg lives in the concurrency machinery (see DESIGN)"],
+        "min_evaluations": 1000,
+        "level_text": "reference-model runtime monitoring of the cache API over ~10^5 seeded histories per quick run plus an end-to-end write-log "
+                      "oracle on the engine; exploration, not proof",
+        "level_note": "trusted: the harness reference model of required invalidations (f64 distances with 1e-4 margins)",
+        "technique": "runtime monitoring: reference-model monitor over cache-operation histories + end-to-end hit oracle",
+    },
+    "C16": {
+        "level": "exploration",
+        "rule": "one case = seeded dataset (family in {uniform sphere, Gaussian clusters, low-dimensional manifold} x metric x dimension in "
+                "{8,16,32,64} x size in {500,1000[,2000,5000 thorough]}) reached by 4 routes (online inserts, bulk build, heavy delete + "
+                "tombstone compaction, recovery rebuild); 200 queries per dataset; mean recall@10 vs f64 brute force must be >= 0.80 on every "
+                "route and no route more than 0.10 below the best; every 4th query is repeated twice on the unchanged collection and must "
+                "return identical distances and identical ids outside exact ties. distinct_nontrivial = distinct datasets",
+        "legs": [{"name": "recall-determinism", "argv": ["c16"], "shards": 16, "timeout_q": 1800, "timeout_t": 14400}],
+        "assumptions": COMMON_ASSUME + ["default index parameters (M=16, ef_construction=200, adaptive ef_search)", "the floor 0.80 and the route tolerance 0.10 are the property's own numbers"],
+        "min_evaluations": 8,
+        "level_text": "measurement of recall and determinism of the real index against brute force over a seeded grid of datasets and build routes; "
+                      "a statistical measurement, not a proof",
+        "level_note": "200 queries per dataset; recall on these sizes is >> 0.9 so sampling noise cannot cross the floor",
+        "technique": "runtime monitoring: measured recall/determinism oracle against brute force",
+    },
+    "C18": {
+        "level": "exploration",
+        "rule": "grid leg: the FULL cross product of the 11 safety-relevant discrete settings (84 672 rows: environment incl. case/whitespace "
+                "variants x fsync x snapshot {0,>0} x recovery mode x cache strategy x auth x rate limit x observability auth x fresh-start x "
+                "TLS x 7 bind-host classes), every row delivered through TOML, YAML and KYRODB__* environment variables (every 5th row also as "
+                "environment variables over a benchmark file) to the real KyroDbConfig::load, remaining settings randomised within valid ranges; "
+                "an independently re-stated predicate over the effective configuration judges every accepted load, verdicts must agree across "
+                "routes and the loaded values must be the supplied ones; the shipped example configs are judged too. server leg: sampled "
+                "rejected rows through the real kyrodb_server --config (non-zero exit, data directory never created). distinct_nontrivial = "
+                "distinct rows in a non-benchmark environment (where the rule applies)",
+        "legs": [
+            {"name": "grid", "argv": ["c18"], "args": {"leg": "grid"}, "shards": 16},
+            {"name": "server", "argv": ["c18"], "args": {"leg": "server"}, "bin_args": {"server": "server"}, "shards": 8},
+        ],
+        "assumptions": COMMON_ASSUME + ["loopback is judged by an independent parser (IpAddr::is_loopback / localhost)"],
+        "min_evaluations": 80000,
+        "exhaustive_key": "grid_rows_total",
+        "level_text": "exhaustive enumeration of the discrete safety-relevant configuration grid through all three delivery routes against an "
+                      "independent predicate, on the real loader; exhaustive for the grid, sampled for the server binary",
+        "level_note": "exhaustive only over the listed discrete values; continuous settings are randomised; accepted rows are not started as servers",
+        "technique": "runtime monitoring: exhaustive configuration-grid differential against an independent predicate",
+    },
+    "C19": {
+        "level": "exploration",
+        "rule": "one row = seeded (rate in 1..10000, optional global rate, 1-8 tenants, 1-16 caller threads, pattern in {burst, paced, "
+                "burst-idle-burst, hot tenant saturating the global bucket, within-budget, refund probe}); real threads call "
+                "RateLimiter::check_limit; the interval is measured on one monotonic clock from before the first to after the last call; "
+                "monitors: admitted_tenant <= capacity + rate*dt + 1, admitted_total <= G + G*dt + 1, no refusal when every tenant sent <= "
+                "capacity and the total <= G, tokens <= capacity, and tokens >= capacity - admitted (a global refusal must not consume the "
+                "tenant's budget). distinct_nontrivial = distinct rows",
+        "legs": [{"name": "admission-bounds", "argv": ["c19"], "shards": 4, "parallel": 4}],
+        "assumptions": COMMON_ASSUME + ["all bounds are timing-safe: slower execution only loosens them", "one consistent max_qps per tenant (the API's contract)"],
+        "min_evaluations": 50,
+        "level_text": "runtime monitoring of admission counts under real concurrent callers over a seeded grid, with timing-safe bounds; "
+                      "exploration of schedules by repetition, not proof",
+        "level_note": "free-running OS scheduling; the server-level row is part of the server driver",
+        "technique": "runtime monitoring: conservation/bound monitors on admission counters under concurrent load",
+    },
 }
